@@ -5,6 +5,7 @@ import IwModel.Model.Ring
 import IwModel.Model.XStr
 import IwModel.Model.Pool
 import IwModel.Lemmas.Avl
+import IwModel.Lemmas.HMapRef
 /-!
 C18: containers behave as their plain reference models for every call sequence.
 
@@ -12,10 +13,150 @@ Each section states, for the mechanism model of one container (the definitions `
 correspondence check compares with the C code), that every call returns what the plain reference structure
 returns and keeps the container's representation invariant, for all states reachable by any call sequence.
 -/
+set_option linter.unusedSectionVars false
 namespace IwModel.C18
 
 /-- side conditions on the regenerated constants that the proofs use -/
 theorem consts_ok : 0 < HMap.MIN_BUCKETS ∧ 0 < HMap.STEPS ∧ 0 < Arr.ALLOC_UNIT := by decide
+
+/-! ## Hash map (`iwhmap.c`): reference = partial function + size + recency list -/
+section HMAP
+open HMap
+variable {κ : Type} [DecidableEq κ]
+
+/-- calls of the hash-map API -/
+inductive HmOp (κ : Type) where
+  | put (k : κ) (v : Nat)
+  | get (k : κ)
+  | rm (k : κ)
+  | ren (a b : κ)
+  | clear
+  | lru (n : Nat)
+
+/-- what a call returns / makes observable: tokens given to the free function, returned value, `iwhmap_count` -/
+abbrev HmOut (κ : Type) := List (Tok κ) × Nat × Nat
+
+def hmStep (h : κ → Nat) (m : Map κ) : HmOp κ → Map κ × HmOut κ
+  | .put k v => let r := HMap.put h m k v; (r.1, r.2, 0, r.1.count)
+  | .get k => let r := HMap.get h m k; (r.1, [], r.2, r.1.count)
+  | .rm k => let r := HMap.remove h m k; (r.1, r.2.2, (if r.2.1 then 1 else 0), r.1.count)
+  | .ren a b => let r := HMap.rename h m a b; (r.1, r.2, 0, r.1.count)
+  | .clear => ((HMap.clear m).1, [], 0, (HMap.clear m).1.count)
+  | .lru n => (HMap.lruInit m n, [], 0, m.count)
+
+def refStep (s : Ref κ) : HmOp κ → Ref κ × HmOut κ
+  | .put k v => let r := s.put k v; (r.1, r.2, 0, r.1.n)
+  | .get k => let r := s.get k; (r.1, [], r.2, r.1.n)
+  | .rm k => let r := s.remove k; (r.1, r.2.2, (if r.2.1 then 1 else 0), r.1.n)
+  | .ren a b => let r := s.rename a b; (r.1, r.2, 0, r.1.n)
+  | .clear => (s.clear, [], 0, 0)
+  | .lru n => (s.lruInit n, [], 0, s.n)
+
+def hmRun (h : κ → Nat) : List (HmOp κ) → Map κ → Map κ × List (HmOut κ)
+  | [], m => (m, [])
+  | op :: ops, m => let r := hmStep h m op; let q := hmRun h ops r.1; (q.1, r.2 :: q.2)
+
+def refRun : List (HmOp κ) → Ref κ → Ref κ × List (HmOut κ)
+  | [], s => (s, [])
+  | op :: ops, s => let r := refStep s op; let q := refRun ops r.1; (q.1, r.2 :: q.2)
+
+/-- one call: the mechanism model (buckets, step growth, rehash up/down, swap-with-last removal, LRU nodes)
+returns what the plain reference returns and stays in the representation relation -/
+theorem hmap_step_refines {h : κ → Nat} {m : Map κ} {s : Ref κ} (r : R h m s) (op : HmOp κ) :
+    R h (hmStep h m op).1 (refStep s op).1 ∧ (hmStep h m op).2 = (refStep s op).2 := by
+  cases op with
+  | put k v => obtain ⟨r', e⟩ := sim_put r k v; exact ⟨r', by simp only [hmStep, refStep]; rw [e, r'.cnt]⟩
+  | get k => obtain ⟨r', e⟩ := sim_get r k; exact ⟨r', by simp only [hmStep, refStep]; rw [e, r'.cnt]⟩
+  | rm k => obtain ⟨r', e⟩ := sim_remove r k; exact ⟨r', by simp only [hmStep, refStep]; rw [e, r'.cnt]⟩
+  | ren a b => obtain ⟨r', e⟩ := sim_rename r a b; exact ⟨r', by simp only [hmStep, refStep]; rw [e, r'.cnt]⟩
+  | clear => have r' := sim_clear r; exact ⟨r', by simp only [hmStep, refStep]; rw [r'.cnt]; rfl⟩
+  | lru n => exact ⟨sim_lruInit r n, by simp only [hmStep, refStep]; rw [r.cnt]⟩
+
+/-- **hash map = association list + recency list, for every call sequence** (put/replace, get with promotion,
+remove, rename onto new or existing keys, clear, enabling eviction at any time), across every growth and
+shrink threshold and for every hash function (colliding or not): same returned values, same counts, same
+tokens freed (replaced pairs and eviction victims, in order), and the final table still represents the reference. -/
+theorem hmap_refines_assoc (h : κ → Nat) (own : Bool) (ops : List (HmOp κ)) :
+    (hmRun h ops (HMap.empty own)).2 = (refRun ops (Ref.empty own)).2 ∧
+    R h (hmRun h ops (HMap.empty own)).1 (refRun ops (Ref.empty own)).1 := by
+  suffices H : ∀ ops (m : Map κ) (s : Ref κ), R h m s → (hmRun h ops m).2 = (refRun ops s).2 ∧ R h (hmRun h ops m).1 (refRun ops s).1 from
+    H ops _ _ (sim_empty h own)
+  intro ops
+  induction ops with
+  | nil => intro m s r; exact ⟨rfl, r⟩
+  | cons op ops ih =>
+    intro m s r
+    obtain ⟨r', e⟩ := hmap_step_refines r op
+    obtain ⟨e2, r2⟩ := ih _ _ r'
+    exact ⟨by simp only [hmRun, refRun]; rw [e, e2], r2⟩
+
+/-- memory safety of the entry vectors in every reachable state: a non-empty bucket always has a spare slot
+(`used < total`), which is what `_entry_add` relies on when it stores at index `used` -/
+theorem hmap_bucket_bounds (h : κ → Nat) (own : Bool) (ops : List (HmOp κ)) (i : Nat) :
+    let m := (hmRun h ops (HMap.empty own : Map κ)).1
+    (ents m i).length = 0 ∨ (ents m i).length < (bucketAt m i).total :=
+  (hmap_refines_assoc h own ops).2.wf.cap i
+
+/-- iteration over a table that represents `s` yields exactly the pairs of `s`, every key once, `count` of them -/
+theorem hmap_iter_spec {h : κ → Nat} {m : Map κ} {s : Ref κ} (r : R h m s) :
+    (∀ k v, (k, v) ∈ toList m ↔ s.f k = some v) ∧ ((toList m).map (·.1)).Nodup ∧ (toList m).length = s.n := by
+  obtain ⟨a, b, c⟩ := toList_spec r.wf
+  exact ⟨fun k v => (a k v).trans (r.maps k v), b, by rw [c, r.cnt]⟩
+
+/-- `iwhmap_clear` and `iwhmap_destroy` pass every live pair to the free function exactly once
+(the pairs of the iteration order, whose keys are pairwise distinct by `hmap_iter_spec`) -/
+theorem hmap_clear_frees_each_once (m : Map κ) :
+    (HMap.clear m).2 = (toList m).flatMap (fun kv => freeToks m.ownKeys (some kv.1) kv.2) ∧
+    HMap.destroy m = (toList m).flatMap (fun kv => freeToks m.ownKeys (some kv.1) kv.2) :=
+  ⟨allToks_eq m, allToks_eq m⟩
+
+theorem touchIfOn_fields (s : Ref κ) (k : κ) :
+    (s.touchIfOn k).own = s.own ∧ (s.touchIfOn k).on = s.on ∧ (s.touchIfOn k).maxc = s.maxc ∧
+    (s.touchIfOn k).n = s.n ∧ (s.touchIfOn k).f = s.f := by
+  unfold Ref.touchIfOn; split <;> exact ⟨rfl, rfl, rfl, rfl, rfl⟩
+
+/-- the eviction loop of `iwhmap_put` removes the `j` least recently used keys, oldest first, and nothing else:
+`L` is the recency list after the put's own promotion -/
+theorem lru_evicts_oldest {h : κ → Nat} {m : Map κ} {s : Ref κ} (r : R h m s) (k : κ) (v : Nat) :
+    let s2 := (s.set k v).touchIfOn k
+    ∃ j, (HMap.put h m k v).1.lru = s2.lru.drop j ∧
+      (∀ k', (s.put k v).1.f k' = if k' ∈ s2.lru.take j then none else s2.f k') ∧
+      (HMap.put h m k v).2 = (match s.f k with | some old => freeToks s.own (some k) old | none => []) ++
+        (s2.lru.take j).flatMap (fun k' => freeToks s.own (some k') ((s2.f k').getD 0)) := by
+  intro s2
+  obtain ⟨r', e⟩ := sim_put r k v
+  have r3 := sim_putTouch r k v
+  have ok : s2.LruOk := r3.lruOk
+  obtain ⟨j, h1, h2, h3, _⟩ := Ref.evict_spec (s2.lru.length + 1) s2
+    (match s.f k with | some old => freeToks s.own (some k) old | none => []) ok (by omega)
+  have hown : s2.own = s.own := (touchIfOn_fields (s.set k v) k).1
+  rw [hown] at h2
+  refine ⟨j, ?_, h3, ?_⟩
+  · rw [r'.lru]; exact h1
+  · rw [e]; exact h2
+
+/-- with eviction on, a put leaves at most `max_count` entries unless no evictable entry is left -/
+theorem lru_count_bound {h : κ → Nat} {m : Map κ} {s : Ref κ} (r : R h m s) (hon : m.lruOn = true) (k : κ) (v : Nat) :
+    (HMap.put h m k v).1.lru = [] ∨ (HMap.put h m k v).1.count ≤ m.maxc := by
+  obtain ⟨r', e⟩ := sim_put r k v
+  have r3 := sim_putTouch r k v
+  obtain ⟨j, _, _, _, h4, h5, h6, h7⟩ := Ref.evict_spec (((s.set k v).touchIfOn k).lru.length + 1) ((s.set k v).touchIfOn k)
+    (match s.f k with | some old => freeToks s.own (some k) old | none => []) r3.lruOk (by omega)
+  obtain ⟨_, f2, f3, _, _⟩ := touchIfOn_fields (s.set k v) k
+  have hon' : ((s.set k v).touchIfOn k).on = true := by rw [f2]; show s.on = true; rw [← r.on]; exact hon
+  have hmx : ((s.set k v).touchIfOn k).maxc = m.maxc := by rw [f3]; show s.maxc = m.maxc; exact r.maxc.symm
+  rw [r'.lru, r'.cnt]
+  rcases h7 with h7 | h7
+  · exact Or.inl h7
+  · right
+    rw [hmx] at h7
+    have : ¬ (s.put k v).1.n > m.maxc := fun hgt => h7 ⟨hon', hgt⟩
+    omega
+/-- the hypotheses are satisfiable and the eviction really happens: three puts into a map bounded to two entries -/
+example : ((hmRun HMap.hashU32Key [.lru 2, .put 1 10, .put 2 20, .put 3 30] (HMap.empty false)).2.map (·.2.2)) = [0, 1, 2, 2] := by
+  decide
+
+end HMAP
 
 /-! ## AVL tree (`iwavl.c`): reference = strictly increasing list of keys -/
 section AVL
